@@ -1,4 +1,4 @@
-import LexVerif.Props.C01Trunc
+import LexVerif.Props.C01Compact
 /-!
 # Props.C01Final — C01 with Eisel–Lemire proved and the slow path modelled
 
@@ -497,9 +497,129 @@ example :
     parseFloatAlgoModel slowModel {} Format.standard {} false FTy.f64
       (C01Slow.bytesOf "9007199254740992.99999999999999") = "ok 4340000000000000 -" := by decide +kernel
 
-/-- **full statement** (a `Prop`): the same for `compact` builds too. `C01_decimal_full_partial` proves it for every
-non-`compact` build; for `compact` builds the moderate path is Bellerophon (`bellerophon_sound` is proved), and what is
-missing is the Bellerophon analogue of `lemire_estimate_facts` / `C01Trunc.lemire_truncated` for its invalid-marked answers. -/
+/-! ## `compact` builds: Bellerophon and the slow path -/
+
+open LexVerif.Props.C01Compact in
+theorem moderatePath_compact (c : Cfg) (hcompact : c.feats.compact = true) (hr : c.mantissaRadix = 10) (F : FTy)
+    (n : Num) : moderatePath c F n false = Bellerophon.bellerophon F compactP n false := by
+  unfold moderatePath
+  rw [hr, backend_bellerophon_compact _ hcompact]
+  simp only []
+  unfold Bellerophon.powersOf
+  rw [hcompact]
+  rfl
+
+open LexVerif.Props.C01Compact in
+/-- an untruncated decimal `Number` in a `compact` build: fast path, Bellerophon (`bellerophon_sound`), and for an
+invalid-marked answer the slow path with Bellerophon's two-sided estimate (`slowDomain_bell_exact`) -/
+theorem numberToFloat_compact_exact {F : FTy} (hF : IsLemireFloat F) (c : Cfg) (hcompact : c.feats.compact = true)
+    (hr : c.mantissaRadix = 10) (hb : c.exponentBase = 10)
+    (n : Number) (hmany : n.manyDigits = false) (hx : NumberExactAt c n) (hs : PlainSlices c n)
+    (hfew : (sigBytes n.integer n.fraction).length ≤ 19) :
+    numberToFloat slowModel c F n false = some (litBits F.fmt c.mantissaRadix c.exponentBase (numberLit c n)) := by
+  obtain ⟨p, eb, lay⟩ := layout_of hF
+  have hmp := moderatePath_compact c hcompact hr F (numOf n)
+  cases hbel : Bellerophon.bellerophon F compactP (numOf n) false with
+  | panic => exact absurd hbel (C01.bellerophon_no_panic F (numOf n) false)
+  | ok fp =>
+    have hx' := hx
+    obtain ⟨hw, hq, hre⟩ := hx'
+    apply numberToFloat_slowModel hF lay (hden_of hF) c (by omega) (by omega) (by omega) n hmany hre
+      (fastContract_decimal hF c hr n)
+    · refine ⟨fp, by rw [hmp, hbel], fun hv => ?_, fun hinv => ?_⟩
+      · rw [hb]; exact C01.bellerophon_sound_untruncated F hF (numOf n) hmany hw hbel hv
+      · obtain ⟨d, _, hbr⟩ := slowDomain_bell_exact hF lay c hr hb n hmany hx hs hfew fp hbel hinv
+        have hcg := roundNE_congr' lay.wf (powFrac_den_pos (by omega) _ _)
+          (litFrac_den_pos (by omega) (by omega) _) hre
+        rw [hr, hb] at hcg
+        unfold C01.Bracket at hbr ⊢
+        rw [hb, hcg]
+        exact hbr
+    · intro fp' hm hneg
+      rw [hmp, hbel] at hm
+      injection hm with hm
+      subst hm
+      obtain ⟨d, D, _⟩ := slowDomain_bell_exact hF lay c hr hb n hmany hx hs hfew fp hbel hneg
+      exact ⟨d, D⟩
+
+open LexVerif.Props.C01Compact in
+/-- a truncated decimal `Number` in a `compact` build -/
+theorem numberToFloat_compact_truncated {F : FTy} (hF : IsLemireFloat F) (c : Cfg)
+    (hcompact : c.feats.compact = true) (hr : c.mantissaRadix = 10) (hb : c.exponentBase = 10)
+    (n : Number) (hmany : n.manyDigits = true) (hs : PlainSlices c n)
+    (hN : 19 < (sigBytes n.integer n.fraction).length)
+    (hw : n.mantissa = ofDigits 10 (dv 10 ((sigBytes n.integer n.fraction).take 19)))
+    (hw1 : 10 ^ 18 ≤ n.mantissa) (hwlt : n.mantissa < 10 ^ 19)
+    (hq : n.exponent = ((sigBytes n.integer n.fraction).length : Int) - 19 + n.explicitExp -
+      ((n.fraction.getD []).length : Int)) :
+    numberToFloat slowModel c F n false = some (numberBits c F.fmt n) := by
+  obtain ⟨p, eb, lay⟩ := layout_of hF
+  have hmp := moderatePath_compact c hcompact hr F (numOf n)
+  have hw64 : n.mantissa < 2 ^ 64 := by
+    have : (10 : Nat) ^ 19 < 2 ^ 64 := by decide
+    omega
+  -- the specification side
+  have hbits : numberBits c F.fmt n = litBits F.fmt 10 10 (numberLit c n) := by
+    unfold numberBits numberLit
+    simp only [hmany, if_true, hr, hb]
+    rfl
+  have hlit := litBits_exact lay (r := 10) (b := 10) (by decide) (by decide) (by decide) (numberLit c n)
+    (by have := numberLit_digits_lt c n; rwa [hr] at this)
+  have hfast : FastPath.tryFastPath (smallSetOf c.feats) F c.mantissaRadix c.exponentBase (numOf n) = .none := by
+    unfold FastPath.tryFastPath FastPath.isFastPath
+    rw [hr, hb]
+    simp only [ne_eq, not_true_eq_false, if_false]
+    have : (numOf n).manyDigits = true := hmany
+    simp [this]
+  cases hbel : Bellerophon.bellerophon F compactP (numOf n) false with
+  | panic => exact absurd hbel (C01.bellerophon_no_panic F (numOf n) false)
+  | ok fp =>
+    unfold numberToFloat
+    rw [hfast]
+    simp only
+    rw [hmp, hbel]
+    simp only
+    by_cases hv : 0 ≤ fp.exp
+    · have htv := litFrac_tv_truncated c hr n hmany hs hN hw hq
+      have hsound := C01.bellerophon_sound F hF (numOf n) hw64 (fun _ => by
+        have : (2 : Nat) ^ 44 ≤ 10 ^ 18 := by decide
+        exact Nat.le_trans this hw1) _ _ (litFrac_den_pos (by decide) (by decide) _) htv hbel hv
+      rw [if_neg (by omega), toNative_eq F fp n.isNegative hsound, hbits, hlit]
+      rfl
+    · have hinv : fp.exp < 0 := by omega
+      obtain ⟨d, D, hbr⟩ := slowDomain_bell_truncated hF lay c hr hb n hmany hs hN hw hw1 hwlt hq fp hbel hinv
+      have hslow := slowModel_hslow hF lay (hden_of hF) (by omega) n fp D (by rw [hr, hb]; exact hbr)
+      rw [hr, hb] at hslow
+      rw [if_pos hinv, slowPath_generic slowModel c D.env, toNative_eq F _ n.isNegative hslow, hbits, hlit]
+      rfl
+
+/-- **`C01_decimal_correct_compact`** — the decimal theorem for `compact` builds: every input, any number of digits, no
+residual hypothesis; the moderate path is Bellerophon -/
+theorem C01_decimal_correct_compact (feats : Features) (hcompact : feats.compact = true) (fmt : Format)
+    (hr : fmt.mantissaRadix = 10) (hb : fmt.exponentBase = 10)
+    (hclass : feats.format = false ∨ C12.SepPrefixFree fmt)
+    (o : POpts) {F : FTy} (hF : IsLemireFloat F) (isPartial : Bool) (s : List Nat)
+    (h256 : ∀ x ∈ s, x < 256) (hlen : s.length < 2 ^ 60) :
+    parseFloatAlgoModel slowModel feats fmt o isPartial F s = parseFloatModel feats fmt o isPartial F.fmt s := by
+  apply parseFloatAlgoModel_eq_valid
+  intro hval n cnt hp
+  have hdp := dp_not_digit feats fmt o (by omega) hval
+  cases hmany : n.manyDigits with
+  | false =>
+    obtain ⟨hx, hs, hfew19⟩ := C01Number.number_exact_of_syntax ⟨feats, fmt, false⟩ rfl hclass hr hb o hdp isPartial s _
+      h256 hlen n cnt hp hmany
+    rw [numberToFloat_compact_exact hF ⟨feats, fmt, false⟩ hcompact hr hb n hmany hx hs hfew19]
+    have hr' : (⟨feats, fmt, false⟩ : Cfg).mantissaRadix = 10 := hr
+    have hb' : (⟨feats, fmt, false⟩ : Cfg).exponentBase = 10 := hb
+    rw [(spec_forms hF ⟨feats, fmt, false⟩ (by omega) (by omega) (by omega) n hmany hx.2.2).2]
+  | true =>
+    obtain ⟨hs, hN, hw, hw1, hwlt, hq, _, _, _, _⟩ := C01Number.number_truncated_of_syntax ⟨feats, fmt, false⟩ rfl
+      hclass hr hb o hdp isPartial s _ h256 hlen n cnt hp hmany
+    exact numberToFloat_compact_truncated hF ⟨feats, fmt, false⟩ hcompact hr hb n hmany hs hN hw hw1 hwlt hq
+
+/-- **the full statement** (kept as a `Prop`, and proved: `C01_decimal_full_proved`): decimal string→float is correctly
+rounded for **every** build (`compact` or not, any other feature), every separator-free format class of C12, `f32`/`f64`,
+complete and partial parser, every input shorter than `2^60` bytes -/
 def C01_decimal_full : Prop :=
   ∀ (feats : Features) (fmt : Format), fmt.mantissaRadix = 10 → fmt.exponentBase = 10 →
     (feats.format = false ∨ C12.SepPrefixFree fmt) →
@@ -507,12 +627,18 @@ def C01_decimal_full : Prop :=
       (∀ x ∈ s, x < 256) → s.length < 2 ^ 60 →
       parseFloatAlgoModel slowModel feats fmt o isPartial F s = parseFloatModel feats fmt o isPartial F.fmt s
 
-/-- the full statement restricted to non-`compact` builds is a theorem -/
-theorem C01_decimal_full_partial (feats : Features) (hcompact : feats.compact = false) (fmt : Format)
-    (hr : fmt.mantissaRadix = 10) (hb : fmt.exponentBase = 10) (hclass : feats.format = false ∨ C12.SepPrefixFree fmt)
-    (o : POpts) (F : FTy) (hF : IsLemireFloat F) (isPartial : Bool) (s : List Nat)
-    (h256 : ∀ x ∈ s, x < 256) (hlen : s.length < 2 ^ 60) :
-    parseFloatAlgoModel slowModel feats fmt o isPartial F s = parseFloatModel feats fmt o isPartial F.fmt s :=
-  C01_decimal_correct_slow feats hcompact fmt hr hb hclass o hF isPartial s h256 hlen
+/-- **`C01_decimal_full` holds**: Eisel–Lemire builds by `C01_decimal_correct_slow`, `compact` builds by
+`C01_decimal_correct_compact` -/
+theorem C01_decimal_full_proved : C01_decimal_full := by
+  intro feats fmt hr hb hclass o F hF isPartial s h256 hlen
+  cases hc : feats.compact with
+  | false => exact C01_decimal_correct_slow feats hc fmt hr hb hclass o hF isPartial s h256 hlen
+  | true => exact C01_decimal_correct_compact feats hc fmt hr hb hclass o hF isPartial s h256 hlen
+
+/-- non-vacuity for a `compact` build -/
+example (s : List Nat) (h256 : ∀ x ∈ s, x < 256) (hlen : s.length < 2 ^ 60) :
+    parseFloatAlgoModel slowModel { compact := true } Format.standard {} false FTy.f32 s =
+      parseFloatModel { compact := true } Format.standard {} false f32 s :=
+  C01_decimal_full_proved { compact := true } Format.standard rfl rfl (Or.inl rfl) {} FTy.f32 (Or.inr rfl) false s h256 hlen
 
 end LexVerif.Props.C01Final
